@@ -329,7 +329,7 @@ def run_case(idx, rng, P, rep):
                        'unchecked-selector'])
     route = rng.choice(['inst', 'inst', 'update1', 'updateN', 'class'])
     if kind == 'plain-invalid':
-        tp = rng.choice(['x', 'y', 's', 'sel', 'nanp', 'ev', 'go', 'xy', 'cnt', 'flag'])
+        tp = rng.choice(['x', 'y', 's', 'sel', 'nanp', 'ev', 'go', 'xy', 'cnt', 'flag', 'xy', 'xy'])
         # (a complex number is a number: comparing it with the bounds is what fails, with a TypeError)
         bad = {'x': rng.choice([99, -1, 'str', float('nan'), 1 + 2j]), 'y': rng.choice([10, 'str', 2j]), 's': rng.choice(['zzz', 5]),
                'sel': 'outsider', 'nanp': rng.choice(['str', [1]]), 'ev': rng.choice([3, 'odd', 7]), 'go': rng.choice(['yes', 5, None]),
@@ -402,6 +402,14 @@ def run_case(idx, rng, P, rep):
             snap[('clsobjects', p)] = tuple(repr(x_) for x_ in Tgt.param[p].objects)
         return snap
 
+    narrowed = None
+    if kind == 'plain-invalid' and tp == 'xy' and route != 'class' and rng.random() < 0.5:
+        # this object's own Parameter for the second constituent is stricter than the class's: what the object refuses
+        # is decided by its own Parameter objects
+        narrowed = t.param.y.bounds
+        t.param.y.bounds = (narrowed[0], 9.5)
+        bad = [rng.choice([5.0, 6.0, 7.0]), 9.75]
+        rep.count('composite_with_instance_level_constituent')
     before = snapshot()
     keep = {k: getattr(o, p) for k, o in objs.items() for p in o.param}   # keep objects alive so ids stay meaningful
     n_log, n_cls = len(log), len(cls_log)
@@ -431,6 +439,8 @@ def run_case(idx, rng, P, rep):
         raised = e
     desc = dict(kind=kind, route=route, target_param=tp, value=repr(bad)[:60], history=hist, links={k: (v[1]) for k, v in links.items()},
                 applied_before_bad=applied_before_bad)
+    if narrowed is not None:
+        desc['instance_level_bounds_of_y'] = (narrowed[0], 9.5)
 
     def viol(key, msg):
         rep.violation(f'C02/{kind}/{route}/{key}', msg, case=desc)
